@@ -36,10 +36,8 @@ def run(ctx):
     # an unrecognised or undecodable PDU is answered with a well-formed A-ABORT wherever the table says so
     c04.run(ctx, events=(19,))
     ctx.run_explorations()
-    first_stats = dict(ctx.explore_stats)
     ctx.extra['evt19_row'] = {'cells': 13, 'explorations': 13 * 2 * 2 * 8}
     it = ctx.build()
-    ctx.earlier_explore_stats = first_stats
     c01.setup_codec(ctx, it)
     # on arbitrary bytes the item decoders cannot be used through their round-trip contract
     it.mode.by_contract.discard('pdu.UserInformationItem.decode')
